@@ -1,9 +1,13 @@
 package main
 
 import (
+	"context"
 	"fmt"
+	"net"
 	"sort"
 	"time"
+
+	"github.com/gopcua/opcua/uacp"
 
 	"github.com/gopcua/opcua/ua"
 	"github.com/gopcua/opcua/uasc"
@@ -252,9 +256,150 @@ func c17(seed uint64, n int, replay string) {
 	for i := 0; i < n; i++ {
 		cases = append(cases, genC17(r, fmt.Sprintf("hist%d", i)))
 	}
+	// the real Open path, context cancelled after Open / kept alive, concurrently with everything else
+	openRes := make(chan c17case, 2)
+	go func() { openRes <- c17open(true, "open-ctx-cancelled") }()
+	go func() { openRes <- c17open(false, "open-ctx-kept") }()
 	for i := range cases {
 		runC17(&cases[i])
 		enc.Encode(cases[i])
 	}
 	c17timing()
+	enc.Encode(<-openRes)
+	enc.Encode(<-openRes)
+}
+
+// ---- c17open: the REAL Open path ----
+// A real client channel opens against a scripted server (uacp.Listen + uasc.NewServerSecureChannel), lifetime 3 s, with a
+// context that is cancelled right after Open returned (the usual "ctx, cancel := WithTimeout(...); defer cancel()" around
+// connect) or kept alive (control). The client renews by itself after 0.75 lifetime. After createdAt + 1.25 lifetime the
+// first token's instance must have left the instance table; the table is polled through the verif accessor and the
+// history is handed to the model like every other c17 history.
+func c17open(cancelCtx bool, name string) c17case {
+	const life = 3 * time.Second
+	ctx := context.Background()
+	l0, err := net.Listen("tcp", "127.0.0.1:0")
+	if err != nil {
+		panic(err)
+	}
+	port := l0.Addr().(*net.TCPAddr).Port
+	l0.Close()
+	ep := fmt.Sprintf("opc.tcp://127.0.0.1:%d", port)
+	ln, err := uacp.Listen(ctx, ep, nil)
+	if err != nil {
+		panic(err)
+	}
+	defer ln.Close()
+	go func() { // scripted server: OPN (issue and renew) is answered inside Receive
+		conn, err := ln.Accept(ctx)
+		if err != nil {
+			return
+		}
+		scfg := &uasc.Config{SecurityPolicyURI: ua.SecurityPolicyURINone, SecurityMode: ua.MessageSecurityModeNone, Lifetime: uint32(life / time.Millisecond)}
+		ssc, err := uasc.NewServerSecureChannel(ep, conn, scfg, make(chan error, 16), chanID, 1, tokID)
+		if err != nil {
+			return
+		}
+		for {
+			if m := ssc.Receive(ctx); m.Err != nil {
+				return
+			}
+		}
+	}()
+	conn, err := uacp.Dial(ctx, ep)
+	if err != nil {
+		panic(err)
+	}
+	defer conn.Close()
+	cfg := &uasc.Config{SecurityPolicyURI: ua.SecurityPolicyURINone, SecurityMode: ua.MessageSecurityModeNone, Lifetime: uint32(life / time.Millisecond), RequestTimeout: 5 * time.Second}
+	sc, err := uasc.NewSecureChannel(ep, conn, cfg, make(chan error, 16))
+	if err != nil {
+		panic(err)
+	}
+	octx, cancel := context.WithTimeout(ctx, 10*time.Second)
+	if err := sc.Open(octx); err != nil {
+		panic(err)
+	}
+	if cancelCtx {
+		cancel() // the caller is done connecting
+	} else {
+		defer cancel()
+	}
+	v := uasc.VerifChannel{S: sc}
+	c := c17case{Name: name}
+	var objs []any // instance objects in order of appearance
+	var base time.Time
+	rows := func() ([][]uint32, []uasc.VerifInstanceInfo) {
+		var fresh []uasc.VerifInstanceInfo
+		t := [][]uint32{}
+		infos := v.InstanceInfos()
+		var ks []uint32
+		for k := range infos {
+			ks = append(ks, k)
+		}
+		sort.Slice(ks, func(i, j int) bool { return ks[i] < ks[j] })
+		for _, k := range ks {
+			for _, in := range infos[k] {
+				id := -1
+				for i, o := range objs {
+					if o == in.Obj {
+						id = i
+					}
+				}
+				if id < 0 {
+					objs = append(objs, in.Obj)
+					id = len(objs) - 1
+					fresh = append(fresh, in)
+				}
+				t = append(t, []uint32{k, uint32(id), in.TokenID, uint32(id)})
+			}
+		}
+		return t, fresh
+	}
+	tab, fresh := rows()
+	if len(fresh) != 1 {
+		panic("c17open: expected exactly one instance after Open")
+	}
+	base = fresh[0].CreatedAt
+	vnow := int64(0)
+	c.Ops = append(c.Ops, c17op{Op: "install", Chan: fresh[0].ChannelID, Token: fresh[0].TokenID, Key: 0, Created: 0, Life: int64(fresh[0].Lifetime), Table: tab, Keys: 1, Now: 0})
+	due0 := base.Add(life / 4 * 5)
+	deadline := base.Add(life/4*5 + life/5) // before the second renewal (created1 + 0.75 life >= 1.5 life)
+	for time.Now().Before(deadline) {
+		time.Sleep(25 * time.Millisecond)
+		tab, fresh = rows()
+		now := int64(time.Since(base))
+		if len(fresh) > 0 { // the renewal installed a new instance: a tick up to now, then the installation
+			prev := [][]uint32{}
+			for _, r := range tab {
+				if int(r[1]) < len(objs)-len(fresh) {
+					prev = append(prev, r)
+				}
+			}
+			c.Ops = append(c.Ops, c17op{Op: "tick", Dt: now - vnow, Table: prev, Keys: 1, Now: now})
+			vnow = now
+			for _, f := range fresh {
+				c.Ops = append(c.Ops, c17op{Op: "install", Chan: f.ChannelID, Token: f.TokenID, Key: len(objs) - 1, Created: int64(f.CreatedAt.Sub(base)), Life: int64(f.Lifetime), Table: tab, Keys: 1, Now: now})
+			}
+			continue
+		}
+		gone := true
+		for _, r := range tab {
+			if r[1] == 0 {
+				gone = false
+			}
+		}
+		if gone && time.Now().After(due0) {
+			break
+		}
+	}
+	// the observation after created + 5/4 lifetime of the first token
+	tab, _ = rows()
+	now := int64(time.Since(base))
+	if now <= int64(life/4*5) {
+		now = int64(life/4*5) + 1
+	}
+	c.Ops = append(c.Ops, c17op{Op: "tick", Dt: now - vnow, Table: tab, Keys: 1, Now: now})
+	sc.Close()
+	return c
 }
